@@ -130,6 +130,7 @@ pub fn run(run: &mut Run) {
     let base = Context::default();
     let acc: Vec<Program> = ACCESSORS.iter().map(|a| Program::compile(&format!("timestamp(v).{}()", a)).unwrap()).collect();
     let acc_global: Vec<Program> = ACCESSORS.iter().map(|a| Program::compile(&format!("{}(timestamp(v))", a)).unwrap()).collect();
+    let acc_var: Vec<Program> = ACCESSORS.iter().map(|a| Program::compile(&format!("t.{}()", a)).unwrap()).collect();
     let p_parse = Program::compile("timestamp(v)").unwrap();
     let p_rt = Program::compile("timestamp(string(timestamp(v))) == timestamp(v)").unwrap();
     let p_eq = Program::compile("timestamp(v) == timestamp(w)").unwrap();
@@ -179,6 +180,18 @@ pub fn run(run: &mut Run) {
                         run.trans(1);
                         if g != Out::Val(MV::Int(expected_field(&l, k))) {
                             run.fail(&format!("C16|accessor-global|{}|got={}", ACCESSORS[k], g.tag()), format!("{}(timestamp({:?})) gave {}", ACCESSORS[k], text, g.show()), case());
+                        }
+                        // the same accessors on a host-supplied timestamp value (no text involved)
+                        if let Some(utc) = chrono::DateTime::from_timestamp(es, ens as u32) {
+                            let tv = Value::Timestamp(utc.with_timezone(&chrono::FixedOffset::east_opt(off as i32).unwrap()));
+                            ctx.add_variable_from_value("t", tv);
+                            for k2 in [(d as usize + 3 * ti + oi) % 10, (d as usize + 7 * ti + 3 * oi + 5) % 10] {
+                                let g = subj::exec(&acc_var[k2], &ctx);
+                                run.trans(1);
+                                if g != Out::Val(MV::Int(expected_field(&l, k2))) {
+                                    run.fail(&format!("C16|accessor-host-value|{}|got={}", ACCESSORS[k2], g.tag()), format!("t.{}() for the host-supplied instant of {} gave {}, the local field is {}", ACCESSORS[k2], text, g.show(), expected_field(&l, k2)), case());
+                                }
+                            }
                         }
                         // round trip through string()
                         if (d + ti as i64) % 3 == 0 || d == 1 || d >= 28 {
